@@ -148,6 +148,21 @@ def scenario_concrete(ctx):
             key = (R, C, tuple(want))
             if seen.setdefault(s, key) != key:
                 msgs.append(f"C12: two different selections share the string {s!r}")
+    # history: two selection arrays of one geometry are built before either is encoded (results must be independent objects)
+    for R, C in ((8, 12), (2, 3), (16, 24)):
+        ids = [f"{ROWS[r]}{c + 1:02d}" for c in range(C) for r in range(R)]
+        first, second = ids[:2], ids[-2:]
+        a1 = evo_make_selection_array(R, C, first)
+        a2 = evo_make_selection_array(R, C, second)
+        for arr, wells in ((a1, first), (a2, second)):
+            try:
+                _, _, dec = evoscript.decode_selection(evo_get_selection(R, C, arr))
+            except evoscript.Reject as ex:
+                msgs.append(f"C12: {ex}")
+                continue
+            want = sorted({(ROWS.index(w[0]), int(w[1:]) - 1) for w in wells})
+            if sorted(dec) != want:
+                msgs.append(f"C12: selection array made for {wells} on {R}x{C} decodes to {sorted(dec)} after another array of that geometry was made")
     return msgs[:6]
 
 
